@@ -44,8 +44,8 @@ func C12(r *Run) *core.Report {
 	// TTL computation twins
 	fa, fb := expirationFn(r, 0), expirationFn(r, 1)
 	if fa != nil && fb != nil {
-		ia := &sym.Interp{P: r.P, M: r.M, MaxPaths: 500}
-		ib := &sym.Interp{P: r.P, M: r.M, MaxPaths: 500}
+		ia := newInterp(r, false)
+		ib := newInterp(r, false)
 		ta := normTable(&MethodPaths{Name: "expiration", Fn: fa, Paths: ia.Run(fa)})
 		tb := normTable(&MethodPaths{Name: "expiration", Fn: fb, Paths: ib.Run(fb)})
 		diff := tableDiff(ta, tb)
@@ -358,8 +358,8 @@ func c12W4(r *Run, rep *core.Report) {
 			continue
 		}
 		fa, fb := r.P.SSA.FuncValue(oa), r.P.SSA.FuncValue(ob)
-		ia := &sym.Interp{P: r.P, M: r.M, MaxPaths: 500}
-		ib := &sym.Interp{P: r.P, M: r.M, MaxPaths: 500}
+		ia := newInterp(r, false)
+		ib := newInterp(r, false)
 		pa, pb := ia.Run(fa), ib.Run(fb)
 		tab := func(ps []sym.Path) map[string][]string {
 			out := map[string]map[string]bool{}
